@@ -349,6 +349,21 @@ class HamiltonianDisplacementMove(
     def __call__(self, context: HContextType) -> bool:
         return self.attempt_displacement(context)
 
+    def to_dict(self) -> dict[str, Any]:
+        """
+        Convert the `HamiltonianDisplacementMove` object to a dictionary. The
+        momentum distribution is a callable and is not serialized.
+
+        Returns
+        -------
+        dict[str, Any]
+            A dictionary representation of the `HamiltonianDisplacementMove` object.
+        """
+        dictionary = super().to_dict()
+        dictionary["kwargs"].pop("apply_constraints", None)
+
+        return dictionary
+
     @property
     def default_operation(self) -> Integrator:
         """
